@@ -11,6 +11,8 @@
 package planner
 
 import (
+	"errors"
+
 	"github.com/sourcenetwork/defradb/client"
 	"github.com/sourcenetwork/defradb/internal/core"
 	"github.com/sourcenetwork/defradb/internal/keys"
@@ -99,9 +101,15 @@ func (p *parallelNode) Prefixes(prefixes []keys.Walkable) {
 }
 
 func (p *parallelNode) Close() error {
-	return p.applyToPlans(func(n planNode) error {
-		return n.Close()
-	})
+	// Every child has to be closed, also when closing one of them fails: a child that stays open
+	// keeps an iterator of the transaction, which the store refuses to discard.
+	var errs []error
+	for _, plan := range p.children {
+		if err := plan.Close(); err != nil {
+			errs = append(errs, err)
+		}
+	}
+	return errors.Join(errs...)
 }
 
 // Next loops through all the children nodes, and calls Next().
